@@ -1,19 +1,28 @@
 /* spec/greg.h -- textbook proleptic Gregorian calendar, as pure C.
  * Compiled by goto-cc inside contracts AND by gcc for native replay.
  * Day numbering: day 1 = 1601-01-01 (a Monday), day 911280 = 4095-12-31.
- * Only textbook facts are used: leap rule, month lengths, 365/366.
- * Macros (upper case S_XXX) are usable inside loop invariants (no calls). */
+ *
+ * Two layers:
+ *  FP_*  first-principles definitions (leap rule, month lengths, 365/366, "day 1 is a Monday",
+ *        ISO 8601 "week 1 contains Jan 4th").
+ *  S_*   the forms used in contracts.  Year-level facts that are periodic with the 400-year
+ *        Gregorian cycle (weekday of Jan 1, number of ISO weeks) are read from spec/tables.h
+ *        (generated from Python's datetime) because mod-7 arithmetic on 20-bit day numbers is
+ *        what makes SAT/SMT back ends slow.  The tables are not trusted: spec lemmas
+ *        (spec/lemmas.h, groups spec.*) prove S_* == FP_* for every year on every run.
+ * Macros (upper case) are usable inside loop invariants (no calls). */
 #ifndef VERIF_SPEC_GREG_H
 #define VERIF_SPEC_GREG_H
+#include "tables.h"
 
 #define S_MIN_YEAR 1601
 #define S_MAX_YEAR 4095
 #define S_MAX_DAISY 911280
-#define S_UNIX_BASE 134775 /* S_daisy(1970,1,1)-1+1: daisy of 1970-01-01 is 134775 -- proved as spec lemma */
+#define S_UNIX_BASE 134775 /* day number of 1970-01-01 -- spec lemma L_anchors */
 
 /* leap rule */
 #define S_LEAP(y) ((((y) % 4) == 0 && (((y) % 100) != 0 || ((y) % 400) == 0)) ? 1 : 0)
-/* days in years 1601..y-1, i.e. the day number of "Jan 0" of year y */
+/* days in years 1601..y-1, i.e. the day number of "Jan 0" of year y (y >= 1601) */
 #define S_JAN00(y) (365 * ((y) - 1601) + ((y) - 1601) / 4 - ((y) - 1601) / 100 + ((y) - 1601) / 400)
 #define S_YDAYS(y) (365 + S_LEAP(y))
 
@@ -22,11 +31,22 @@ static const int S_CUM[14] = {0, 0, 31, 59, 90, 120, 151, 181, 212, 243, 273, 30
 static const int S_MLEN[13] = {0, 31, 28, 31, 30, 31, 30, 31, 31, 30, 31, 30, 31};
 
 #define S_MDAYS(y, m) (S_MLEN[m] + (((m) == 2 && S_LEAP(y)) ? 1 : 0))
+#define S_CUML(y, k) (S_CUM[k] + (((k) >= 3 && S_LEAP(y)) ? 1 : 0))
 /* day of year of y-m-d */
-#define S_YDAY(y, m, d) (S_CUM[m] + (d) + (((m) >= 3 && S_LEAP(y)) ? 1 : 0))
+#define S_YDAY(y, m, d) (S_CUML(y, m) + (d))
 #define S_DAISY(y, m, d) (S_JAN00(y) + S_YDAY(y, m, d))
-/* weekday of day number n>=0: Mon=1 .. Sun=7 (day 1 is a Monday, day 0 a Sunday) */
+
+/* ---- weekdays: Mon=1 .. Sun=7 */
+/* first principles: of a day number n >= 0 (day 1 is a Monday, day 0 a Sunday) */
 #define S_WDAY(n) ((((n) + 6) % 7) + 1)
+#define FP_J01WD(y) S_WDAY(S_JAN00(y) + 1)
+/* contract forms: via the 400-year table (lemma L_tab: == FP_J01WD for 1601..4097) */
+#define S_YIDX(y) (((y) - 1601) % 400)
+#define S_J01WD(y) ((int)T_J01WD[S_YIDX(y)])
+/* weekday of the yd-th day of year y, yd >= -6 (lemma L_wd: == S_WDAY(S_JAN00(y)+yd)) */
+#define S_WDAY_YD(y, yd) (((S_J01WD(y) + (yd) + 12) % 7) + 1)
+#define S_WDAY_YMD(y, m, d) S_WDAY_YD(y, S_YDAY(y, m, d))
+#define S_M01WD(y, m) S_WDAY_YD(y, S_CUML(y, m) + 1)
 
 static inline int S_leap(int y) { return S_LEAP(y); }
 static inline int S_jan00(int y) { return S_JAN00(y); }
@@ -35,6 +55,8 @@ static inline int S_mdays(int y, int m) { return (m >= 1 && m <= 12) ? S_MDAYS(y
 static inline int S_yday(int y, int m, int d) { return S_YDAY(y, m, d); }
 static inline int S_daisy(int y, int m, int d) { return S_DAISY(y, m, d); }
 static inline int S_wday(int n) { return S_WDAY(n); }
+static inline int S_j01wd(int y) { return S_J01WD(y); }
+static inline int S_m01wd(int y, int m) { return S_M01WD(y, m); }
 
 /* validity */
 #define V_YEAR(y) ((y) >= S_MIN_YEAR && (y) <= S_MAX_YEAR)
@@ -51,30 +73,36 @@ static inline int R_ymd_of(int n, int y, int m, int d)
 static inline int R_yd_of(int n, int y, int d)
 { return V_yd(y, d) && S_JAN00(y) + d == n; }
 
-/* weekday of the first of month / january */
-static inline int S_j01wd(int y) { return S_WDAY(S_JAN00(y) + 1); }
-static inline int S_m01wd(int y, int m) { return S_WDAY(S_DAISY(y, m, 1)); }
-
 /* n-th weekday counts: ymcw = year, month, count c (1..5), weekday w (1..7; 0 never canonical)
  * the c-th w-day of the month is day 1 + ((w - wd01) mod 7) + 7(c-1) */
 static inline int S_ymcw_mday(int y, int m, int c, int w)
-{ return 1 + ((w - S_m01wd(y, m) + 7) % 7) + 7 * (c - 1); }
+{ return 1 + ((w - S_M01WD(y, m) + 7) % 7) + 7 * (c - 1); }
 /* number of w-days in month y-m */
 static inline int S_mcnt(int y, int m, int w)
-{ return (S_MDAYS(y, m) - (1 + ((w - S_m01wd(y, m) + 7) % 7))) / 7 + 1; }
+{ return (S_MDAYS(y, m) - (1 + ((w - S_M01WD(y, m) + 7) % 7))) / 7 + 1; }
 static inline int V_ymcw(int y, int m, int c, int w)
-{ return V_YEAR(y) && m >= 1 && m <= 12 && w >= 1 && w <= 7 && c >= 1 &&
+{ return V_YEAR(y) && m >= 1 && m <= 12 && w >= 1 && w <= 7 && c >= 1 && c <= 5 &&
 	 S_ymcw_mday(y, m, c, w) <= S_MDAYS(y, m); }
 
-/* the civil year of day n (defined by search-free bracketing; used relationally) */
+/* the civil year of day n: estimate, then correct (n/365 over-estimates by < 2 years) */
 static inline int S_daisy_year(int n)
-{	/* estimate, then correct: at most 2 steps down (n/365 over-estimates by < 2 years + 1 in range) */
+{
 	int y = 1601 + n / 365;
 	if (S_JAN00(y) >= n) y--;
 	if (S_JAN00(y) >= n) y--;
 	if (S_JAN00(y) >= n) y--;
 	return (S_JAN00(y) < n && n <= S_JAN00(y + 1)) ? y : -1;
 }
+
+/* month / day-of-month of a (year, day-of-year): loop-free table walk */
+static inline int S_mon_of_yday(int y, int yd)
+{
+	return 1 + (yd > S_CUML(y, 2)) + (yd > S_CUML(y, 3)) + (yd > S_CUML(y, 4)) + (yd > S_CUML(y, 5)) +
+		(yd > S_CUML(y, 6)) + (yd > S_CUML(y, 7)) + (yd > S_CUML(y, 8)) + (yd > S_CUML(y, 9)) +
+		(yd > S_CUML(y, 10)) + (yd > S_CUML(y, 11)) + (yd > S_CUML(y, 12));
+}
+static inline int S_mday_of_yday(int y, int yd)
+{ int m = S_mon_of_yday(y, yd); return yd - S_CUML(y, m); }
 
 /* successor relation on civil dates (for the spec lemma) */
 static inline int R_succ(int y, int m, int d, int y2, int m2, int d2)
